@@ -2,6 +2,7 @@ package main
 
 import (
 	"fmt"
+	"go/constant"
 	"go/token"
 	"go/types"
 	"strings"
@@ -151,36 +152,43 @@ func renderer14(c *Check, fn *ssa.Function) {
 		if phi, ok := oc[0].Org.V.(*ssa.Phi); ok || oc[0].Org.K == "phi" {
 			_ = phi
 		}
-		// the outcome value is a phi of constants; examine each edge
+		// the outcome value: a choice among constants; examine each
+		// alternative with the conditions selecting it (branches, helper
+		// returns, entries of a read-only table keyed by the result)
 		var v ssa.Value
 		if len(ev.Ctors) == 1 {
 			v = ev.Ctors[0].Call.Args[2]
+		} else if oc[0].Org != nil {
+			v = oc[0].Org.V
 		}
-		if ph, ok := v.(*ssa.Phi); ok {
+		if v != nil {
 			okOut = true
 			nsucc := 0
-			for i, e := range ph.Edges {
-				s, isC := constStr(e)
-				if !isC {
+			isResult := func(alt CAlt, x ssa.Value) bool {
+				return trimOrg(r.Of(alt.Arg(x)).String()) == ae+".Result"
+			}
+			for _, alt := range condAlts(v, 0) {
+				if alt.K == nil || alt.K.Value == nil || alt.K.Value.Kind() != constant.String {
 					okOut = false
-					whyOut = "outcome is computed"
+					whyOut = "outcome is computed (" + trimOrg(r.Of(v).String()) + ")"
 					continue
 				}
-				pred := ph.Block().Preds[i]
-				last := pred.Instrs[len(pred.Instrs)-1]
-				gs := GuardsOf(last)
-				if iff, ok := last.(*ssa.If); ok && pred.Succs[0] != pred.Succs[1] {
-					gs = append(gs, Guard{If: iff, Cond: iff.Cond, True: pred.Succs[0] == ph.Block()})
-				}
+				s := constant.StringVal(alt.K.Value)
 				isSuccessEdge := false
-				for _, g := range gs {
-					a := atomsOf(g)
+				for _, a := range alt.Conds {
 					b, ok := a.V.(*ssa.BinOp)
 					if !ok || b.Op != token.EQL {
 						continue
 					}
-					cs, isS := constStr(b.Y)
-					if isS && cs == "success" && trimOrg(r.Of(b.X).String()) == ae+".Result" && a.Pos {
+					if cs, isS := constStr(b.Y); isS && cs == "success" && isResult(alt, b.X) && a.Pos {
+						isSuccessEdge = true
+					}
+					if cs, isS := constStr(b.X); isS && cs == "success" && isResult(alt, b.Y) && a.Pos {
+						isSuccessEdge = true
+					}
+				}
+				if alt.Key != nil && alt.KeyConst != nil && !alt.Miss && isResult(alt, alt.Key) {
+					if ks, isS := constStr(alt.KeyConst); isS && ks == "success" {
 						isSuccessEdge = true
 					}
 				}
@@ -198,15 +206,13 @@ func renderer14(c *Check, fn *ssa.Function) {
 					}
 				default:
 					okOut = false
-					whyOut = "unexpected outcome constant " + s
+					whyOut = "unexpected outcome constant \"" + s + "\" (a result outside the table is rendered with it)"
 				}
 			}
 			if nsucc == 0 {
 				okOut = false
 				whyOut = "no path yields 'succeeded'"
 			}
-		} else if v != nil {
-			whyOut = "outcome is " + trimOrg(r.Of(v).String())
 		}
 	}
 	c.Cond(okOut, "outcome-iff-success", name+": outcome", p.InstrPos(ret), "'succeeded' exactly on the edge ae.Result == \"success\", 'failed' on every other path", whyOut)
@@ -340,9 +346,25 @@ func renderer14(c *Check, fn *ssa.Function) {
 			// a repository helper: it must not write memory reachable from
 			// its arguments, nor package-level state
 			bad := ""
-			for _, prm := range sc.Params {
+			for pi, prm := range sc.Params {
 				if at := storesIntoParam(p, sc, prm, 0); at != "" {
-					bad = "stores into memory reachable from its argument " + prm.Name() + " at " + at
+					// allowed when the argument is memory created by this
+					// rendering (the event under construction, a fresh map)
+					fresh := false
+					if pi < len(cl.Common().Args) {
+						fresh = true
+						for _, a := range r.Of(cl.Common().Args[pi]).Alts() {
+							switch {
+							case a.K == "alloc":
+							case a.K == "call" && (strings.HasPrefix(a.Name, "github.com/metal-toolbox/auditevent.NewAuditEvent") || strings.Contains(a.Name, "auditevent.AuditEvent).With")):
+							default:
+								fresh = false
+							}
+						}
+					}
+					if !fresh {
+						bad = "stores into memory reachable from its argument " + prm.Name() + " at " + at
+					}
 				}
 			}
 			allInstrs(sc, func(hi ssa.Instruction) {
